@@ -436,7 +436,7 @@ impl SvgElement {
 //@ ensures
 //@ - final(self).name == old(self).name
 //@ - lacks(final(self).attrs@, seq!["xy"@, "cxy"@, "xy1"@, "xy2"@, "dxy"@])     @@C11.shorthand.pos.removed
-//@ - old(self).attrs@.dom().contains("xy"@) ==> !final(self).attrs@.dom().contains("xy-loc"@)     @@C11.shorthand.xyloc.removed
+//@ - !final(self).attrs@.dom().contains("xy-loc"@)     @@C11.shorthand.xyloc.removed @@C09.loc.xyloc_never_left_behind
 //@ - old(self).attrs@.dom().contains("xy"@) && !old(self).attrs@.dom().contains("cxy"@) && !old(self).attrs@.dom().contains("xy1"@) && !old(self).attrs@.dom().contains("xy2"@) ==> ({
 //@       let o = old(self).attrs@; let m = final(self).attrs@;
 //@       let l = map_get(o, "xy-loc"@);
